@@ -277,6 +277,55 @@ def rescale : List (String × List String) := [
 ]
 
 
+/-- default argument values the model and the tie rely on (the driver is always sent explicit values; stream `defaults`
+    calls the code with the argument omitted and compares with the model at these values): `vjp`/`Function.vjp` conjugate
+    by default (`vjpWrap true`), `jacobian` has no evaluation block by default, losses scale `0.5` (generic `Loss`: `1.0`),
+    no weighting (`W = None` → all ones), identity operator (`A = None`), `HuberNorm(1.0, separable)`, `L21Norm(l2_axis=0)`,
+    `L1MinusL2Norm(beta=1.0)`, `grad` w.r.t. argument 0 without aux -/
+def defaults : List (String × String × String) := [
+  ("grad", "argnums", "0"),
+  ("grad", "has_aux", "False"),
+  ("grad", "holomorphic", "False"),
+  ("grad", "allow_int", "False"),
+  ("value_and_grad", "argnums", "0"),
+  ("value_and_grad", "has_aux", "False"),
+  ("value_and_grad", "holomorphic", "False"),
+  ("value_and_grad", "allow_int", "False"),
+  ("jacrev", "argnums", "0"),
+  ("jacrev", "holomorphic", "False"),
+  ("jacrev", "allow_int", "False"),
+  ("cvjp", "jidx", "None"),
+  ("Operator.vjp", "conjugate", "True"),
+  ("jacobian", "include_eval", "False"),
+  ("Function.vjp", "conjugate", "True"),
+  ("Function.jacobian", "include_eval", "False"),
+  ("Loss.__init__", "A", "None"),
+  ("Loss.__init__", "f", "None"),
+  ("Loss.__init__", "scale", "1.0"),
+  ("SquaredL2Loss.__init__", "A", "None"),
+  ("SquaredL2Loss.__init__", "scale", "0.5"),
+  ("SquaredL2Loss.__init__", "W", "None"),
+  ("SquaredL2Loss.__init__", "prox_kwargs", "None"),
+  ("PoissonLoss.__init__", "A", "None"),
+  ("PoissonLoss.__init__", "scale", "0.5"),
+  ("SquaredL2AbsLoss.__init__", "A", "None"),
+  ("SquaredL2AbsLoss.__init__", "scale", "0.5"),
+  ("SquaredL2AbsLoss.__init__", "W", "None"),
+  ("SquaredL2SquaredAbsLoss.__init__", "A", "None"),
+  ("SquaredL2SquaredAbsLoss.__init__", "scale", "0.5"),
+  ("SquaredL2SquaredAbsLoss.__init__", "W", "None"),
+  ("HuberNorm.__init__", "delta", "1.0"),
+  ("HuberNorm.__init__", "separable", "True"),
+  ("L21Norm.__init__", "l2_axis", "0"),
+  ("L1MinusL2Norm.__init__", "beta", "1.0"),
+  ("TVNorm.__init__", "circular", "True"),
+  ("TVNorm.__init__", "axes", "None"),
+  ("TVNorm.__init__", "input_shape", "None"),
+  ("TVNorm.__init__", "input_dtype", "snp.float32"),
+  ("ProximalAverage.__init__", "alpha_list", "None"),
+  ("ProximalAverage.__init__", "no_inf_eval", "True")
+]
+
 /-- `Fn.mulScalar` dispatches on exactly the classes that define `__mul__` (`ScaledFunctional` folds, `Loss` rescales a
     copy, `Functional` wraps), `Fn.divScalar` on `__truediv__` (`Loss` only); `_grad` is assigned in `Functional.__init__`
     and re-bound in `Loss.__mul__/__truediv__` (`Heap.copyRebindScale`) and nowhere else -/
